@@ -1,5 +1,6 @@
 pub mod c01;
 pub mod c02;
+pub mod c03;
 pub mod c07;
 pub mod c12;
 pub mod c13;
@@ -16,6 +17,7 @@ pub fn dispatch(prop: &str) -> Option<(RunFn, ReplayFn)> {
     Some(match prop {
         "C01" => (c01::run, c01::replay),
         "C02" => (c02::run, c02::replay),
+        "C03" => (c03::run, c03::replay),
         "C07" => (c07::run, c07::replay),
         "C12" => (c12::run, c12::replay),
         "C13" => (c13::run, c13::replay),
